@@ -529,7 +529,12 @@ pub fn oracle(base: &Base, id: usize, v: &Val, origin: &str, out: &mut Out) {
         out.oracle_checks += 1;
         if *n == name {
             if *g != want[k].1 {
-                out.fail("", &desc, &format!("edited field {} was set to {} and reads back as {}", n, want[k].1, g));
+                // D24: a break from -0.0 to +0.0
+                let cls = match v {
+                    Val::Breaks(l) if l.iter().any(|(s, e)| *s == 0.0 && *e == 0.0 && s.is_sign_negative() && e.is_sign_positive()) => "D24",
+                    _ => "",
+                };
+                out.fail(cls, &desc, &format!("edited field {} was set to {} and reads back as {}", n, want[k].1, g));
             }
         } else {
             // special style is carried in mania only: a mode edit legitimately changes whether it is
@@ -607,6 +612,9 @@ pub fn generate(tier: &str, seed: u64, out: &mut Out) {
             for x in [2147483647.0, -2147483647.0, 5e-324, -0.0] {
                 oracle(b, id, &Val::F64(x), o, out);
             }
+        }
+        for br in [(-0.0, 0.0), (0.0, 0.0), (-0.0, -0.0), (5.0, 5.0), (-2147483647.0, 2147483647.0)] {
+            oracle(b, 35, &Val::Breaks(vec![br]), o, out);
         }
     }
     // correspondence: representable and hostile values, slider-free files
